@@ -43,19 +43,21 @@ HOSTS = [
          matcher=True, leaves=['== 1', '!= 2', '< 3', '>= 2', 'constant true', 'constant false'],
          syms=['== 71', '<= 72']),
     dict(name='line-matcher', mod='exactly_lib.impls.types.line_matcher.parse_line_matcher', vt='LINE_MATCHER',
-         matcher=True, leaves=['line-num == 1', 'line-num > 1', 'contents is-empty', "contents equals 'a'", 'constant true',
+         # (no leaf takes a TEXT-SOURCE: `equals X` would accept a following `-transformed-by ...` token as its own option,
+         #  so a leaf would not be one word when another leaf is put next to it in the malformed stream)
+         matcher=True, leaves=['line-num == 1', 'line-num > 1', 'contents is-empty', "contents matches ^a$", 'constant true',
                                'constant false'],
          syms=['line-num == 71', 'line-num <= 72']),
     dict(name='text-matcher', mod='exactly_lib.impls.types.string_matcher.parse_string_matcher', vt='STRING_MATCHER',
-         matcher=True, leaves=['is-empty', 'num-lines == 1', 'num-lines > 1', 'equals "a"', 'matches ^a', 'constant true',
+         matcher=True, leaves=['is-empty', 'num-lines == 1', 'num-lines > 1', 'matches ^a', 'matches b', 'constant true',
                                'constant false',
                                # primitives whose LAST argument is a simple expression (of this or another type)
-                               "-transformed-by char-case -to-upper equals 'A'", "every line : contents equals 'a'",
+                               "-transformed-by char-case -to-upper matches A", "every line : contents matches ^a$",
                                'any line : line-num > 1'],
          syms=['num-lines == 71', 'num-lines <= 72']),
     dict(name='file-matcher', mod='exactly_lib.impls.types.file_matcher.parse_file_matcher', vt='FILE_MATCHER',
          matcher=True, leaves=['type file', 'type dir', 'name f.txt', "name '*.txt'", 'constant true', 'constant false',
-                               "contents equals 'a'", 'dir-contents num-files == 1', 'dir-contents -recursive is-empty'],
+                               "contents matches ^a$", 'dir-contents num-files == 1', 'dir-contents -recursive is-empty'],
          syms=['name no-such-name', 'type symlink']),
     dict(name='files-matcher', mod='exactly_lib.impls.types.files_matcher.parse_files_matcher', vt='FILES_MATCHER',
          matcher=True, leaves=['is-empty', 'num-files == 1', 'num-files > 1', 'constant true', 'constant false',
@@ -65,7 +67,7 @@ HOSTS = [
     dict(name='text-transformer', mod='exactly_lib.impls.types.string_transformer.parse_string_transformer',
          vt='STRING_TRANSFORMER', matcher=False,
          leaves=['identity', 'char-case -to-upper', 'char-case -to-lower', 'replace a b', 'replace b c', 'replace c a',
-                 'filter line-num == 1', "filter contents equals 'a'", 'replace -at line-num == 1 a b'],
+                 'filter line-num == 1', "filter contents matches ^a$", 'replace -at line-num == 1 a b'],
          struct_only=[6, 7, 8],   # not character maps: used for the structure only, never evaluated
          syms=['replace A c', 'replace B a']),
 ]
